@@ -5,6 +5,7 @@ import (
 	"compress/gzip"
 	"encoding/binary"
 	"fmt"
+	"github.com/xelaj/mtproto/internal/mtproto/objects"
 	ts "github.com/xelaj/mtproto/zverif/ref/tlschema"
 	"io"
 	"math/rand"
@@ -370,6 +371,53 @@ func c15(c *wk.Ctx) {
 		}
 		idx++
 	}
+	// many small objects in one input (what a busy server sends): cost must stay proportional to the input, not to
+	// the input times the number of objects in it
+	for _, n := range []int{2000, c.Pick(8000, 60000)} {
+		for variant := 0; variant < 3; variant++ {
+			if c.Mine(idx) {
+				var in []byte
+				name := ""
+				switch variant {
+				case 0: // msg_container of n pongs
+					name = "container-of-pongs"
+					in = append(le32(0x73f1f8dc), le32(uint32(n))...)
+					for i := 0; i < n; i++ {
+						in = append(in, le64(uint64(i)<<2|1)...)
+						in = append(in, le32(uint32(2*i+1))...)
+						in = append(in, le32(20)...)
+						in = append(in, le32(0x347773c5)...)
+						in = append(in, le64(uint64(i))...)
+						in = append(in, le64(uint64(i)*7)...)
+					}
+				case 1: // rpc_result carrying a vector of n small objects, decoded with the caller's prediction
+					name = "vector-of-objects"
+					in = append(le32(0x1cb5c415), le32(uint32(n))...)
+					for i := 0; i < n; i++ {
+						in = append(in, le32(0xa384b779)...) // receivedNotifyMessage id:int flags:int
+						in = append(in, le32(uint32(i))...)
+						in = append(in, le32(uint32(i^0x55))...)
+					}
+				case 2: // a vector of n field-less objects inside an object
+					name = "object-with-long-vector"
+					in = append(le32(0xf35c6d01), le64(7)...) // rpc_result req_msg_id result
+					in = append(in, le32(0x1cb5c415)...)
+					in = append(in, le32(uint32(n))...)
+					for i := 0; i < n; i++ {
+						in = append(in, le32(0xa384b779)...)
+						in = append(in, le32(uint32(i))...)
+						in = append(in, le32(1)...)
+					}
+				}
+				c.Begin(idx, fmt.Sprintf("many-small %s n=%d bytes=%d", name, n, len(in)))
+				hint := reflect.TypeOf([]*telegram.ReceivedNotifyMessage{})
+				m.call(idx, in, "DecodeUnknownObject+hints", "many-small-objects", func() error { _, e := tl.DecodeUnknownObject(in, hint); return e })
+				m.call(idx, in, "DecodeUnknownObject", "many-small-objects", func() error { _, e := tl.DecodeUnknownObject(in); return e })
+				c.Distinct("many-small", name, n)
+			}
+			idx++
+		}
+	}
 	// uniform random bytes as a floor
 	for k := 0; k < c.Pick(20000, 600000); k++ {
 		if c.Mine(idx) {
@@ -447,6 +495,8 @@ func c15seed(c *wk.Ctx, m *c15mon, idx int, r *rand.Rand, t reflect.Type, seed [
 	}
 	try := func(in []byte, class string, hintSel int) {
 		in = in[:len(in):len(in)] // nothing behind the input: capacity == length
+		// the receive loop looks at every body through UnpackGzip before it decodes anything
+		m.call(idx, in, "UnpackGzip", class, func() error { objects.UnpackGzip(in); return nil })
 		m.call(idx, in, "DecodeUnknownObject", class, func() error { _, e := tl.DecodeUnknownObject(in); return e })
 		if t != nil {
 			m.call(idx, in, "Decode", class, func() error {
